@@ -149,35 +149,67 @@ func (f *statefulFam) close() {
 	}
 }
 
-func (f *statefulFam) commit(kind string, idx []int) error {
-	l := ledger.DefLedger
+// stBuildBlock builds the next block on l's tip with the given transactions and signs it with all validators
+// (the harness in the role of the consensus).
+func stBuildBlock(l *ledger.Ledger, txs []*types.Transaction) (*types.Block, error) {
 	cur := l.GetCurrentBlockHeight()
 	prev := l.GetCurrentBlockHash()
 	xroot, err := l.GetCrossStateRoot(cur)
 	if err != nil {
-		return err
+		return nil, err
 	}
 	hdr := &types.Header{Version: 0, ChainID: stChainID(), PrevBlockHash: prev, Timestamp: 1000 + cur + 1, Height: cur + 1,
 		ConsensusData: uint64(cur) + 8, ConsensusPayload: stPayload(false),
 		BlockRoot:      l.GetBlockRootWithPreBlockHashes(cur+1, []common.Uint256{prev}),
 		CrossStateRoot: xroot}
-	blk := &types.Block{Header: hdr}
-	for _, i := range idx {
-		blk.Transactions = append(blk.Transactions, stTx(i))
-	}
+	blk := &types.Block{Header: hdr, Transactions: txs}
 	blk.RebuildMerkleRoot()
 	h := hdr.Hash()
 	for _, k := range stKeys {
 		hdr.Bookkeepers = append(hdr.Bookkeepers, k.pub)
 		sg, err := osig.Sign(osig.SHA256withECDSA, k.priv, h[:], nil)
 		if err != nil {
-			return err
+			return nil, err
 		}
 		raw, err := osig.Serialize(sg)
 		if err != nil {
-			return err
+			return nil, err
 		}
 		hdr.SigData = append(hdr.SigData, raw)
+	}
+	return blk, nil
+}
+
+// stNewLedger opens a fresh ledger under dir initialised with the empty VBFT genesis block of the 4 test validators.
+func stNewLedger(dir string) (*ledger.Ledger, error) {
+	stSetup()
+	l, err := ledger.NewLedger(filepath.Join(dir, "chain"))
+	if err != nil {
+		return nil, err
+	}
+	gen := &types.Block{Header: &types.Header{Version: 0, ChainID: stChainID(), Timestamp: 1000, Height: 0, ConsensusData: 7,
+		ConsensusPayload: stPayload(true)}}
+	gen.RebuildMerkleRoot()
+	pubs := []keypair.PublicKey{}
+	for _, k := range stKeys {
+		pubs = append(pubs, k.pub)
+	}
+	if err := l.Init(pubs, gen); err != nil {
+		return nil, err
+	}
+	return l, nil
+}
+
+func (f *statefulFam) commit(kind string, idx []int) error {
+	l := ledger.DefLedger
+	cur := l.GetCurrentBlockHeight()
+	var txs []*types.Transaction
+	for _, i := range idx {
+		txs = append(txs, stTx(i))
+	}
+	blk, err := stBuildBlock(l, txs)
+	if err != nil {
+		return err
 	}
 	res, err := l.ExecuteBlock(blk)
 	if err != nil {
@@ -200,28 +232,17 @@ func (f *statefulFam) commit(kind string, idx []int) error {
 func (f *statefulFam) Exec(r *hx.Run, op []string) string {
 	switch op[0] {
 	case "ledger":
-		stSetup()
 		f.close()
 		dir, err := os.MkdirTemp("", "hkv-stateful-")
 		if err != nil {
 			panic(err)
 		}
 		f.dir = dir
-		l, err := ledger.NewLedger(filepath.Join(dir, "chain"))
+		l, err := stNewLedger(dir)
 		if err != nil {
 			panic(err)
 		}
 		ledger.DefLedger = l
-		gen := &types.Block{Header: &types.Header{Version: 0, ChainID: stChainID(), Timestamp: 1000, Height: 0, ConsensusData: 7,
-			ConsensusPayload: stPayload(true)}}
-		gen.RebuildMerkleRoot()
-		pubs := []keypair.PublicKey{}
-		for _, k := range stKeys {
-			pubs = append(pubs, k.pub)
-		}
-		if err := l.Init(pubs, gen); err != nil {
-			panic(err)
-		}
 		f.committed = map[int]bool{}
 		f.serial++
 		id := fmt.Sprintf("hkv-stateful-%d", f.serial)
